@@ -64,7 +64,8 @@ Next ==
   \/ \E n \in NameSet, f \in Forced : S!InitResp(n, f) \/ S!PollResp(n, f) \/ S!LookupResp(n, f)
   \/ \E n \in NameSet : S!InitStray(n)
   \/ (On("xflush") /\ S!ExtraFlush)
-  \/ S!InitRoundEnd \/ S!InitWake \/ S!PollFinish
+  \/ S!InitRoundEnd \/ S!InitWake \/ S!InitGiveUp \/ S!PollFinish
+  \/ \E n \in NameSet : S!FlightSkip(n)
   \/ On("refresh") /\ \E c \in CallerSet, dl \in LookupDeadlines : S!Refresh(c, Dl(LookupDeadlines, dl))
   \/ On("tick") /\ S!Refresh("poller", Nil)
   \/ \E c \in CallerSet : S!RefreshGiveUp(c)
